@@ -232,6 +232,17 @@ fn resolve_once(
                 &new_excerpt);
 
 
+            // After a substitution, positions in the line's text
+            // are no longer positions in the file it came from
+            if substs.len() > 0
+            {
+                for mtch in matches.iter_mut()
+                {
+                    mtch.set_argument_spans(ast_instr.span);
+                }
+            }
+
+
             let attempted_match_excerpt = {
                 if substs.len() == 0
                 {
